@@ -589,6 +589,36 @@ def scenarios(rng, ctx0=5000):
         for b in ys[:4]:
             s.get_corr(a, b)
     done(s)
+    # S14: covariance / correlation of results over interleaved subsets of the same inputs: six inputs (independent and
+    # dependent mixed), six results each a weighted sum over a random subset, every ordered pair -- patterns such as
+    # "several consecutive inputs of b that a lacks, then a shared one" occur in both argument orders
+    for variant in range(3):
+        s = new()
+        kinds = [rng.random() < (0.0, 0.5, 1.0)[variant] for _ in range(6)]       # all independent / mixed / all dependent
+        for dep in kinds: s.ureal(_rv(rng), _rv(rng, .1, 1), inf, indep=not dep)
+        deps = [i for i, d in enumerate(kinds) if d]
+        for _ in range(min(3, len(deps) // 2)):
+            a, b = rng.sample(deps, 2); s.set_corr(round(rng.uniform(-.6, .6), 2), a, b)
+        ys = []
+        for k in range(6):
+            sub = sorted(rng.sample(range(6), rng.choice([1, 2, 2, 3, 4])))
+            if k == 0: sub = [0, 5]
+            if k == 1: sub = [1, 2, 3, 5]
+            if k == 2: sub = [3]
+            acc = None
+            for i in sub:
+                s.bin('mul', ('num', _rv(rng)), ('ref', i)); t = len(s.slots) - 1
+                if acc is None: acc = t
+                else:
+                    s.bin('add', ('ref', acc), ('ref', t)); acc = len(s.slots) - 1
+            ys.append(acc)
+        for a in ys:
+            for b in ys:
+                s.get_cov(a, b)
+        for a in ys[:3]:
+            for b in ys[3:]:
+                s.get_corr(a, b); s.get_corr(b, a)
+        done(s)
     # S13: reporting calls (budget / components, with and without intermediates) between operations: they must not change
     # any number -- the operands are used again afterwards (merges with numbers having other influences) and re-budgeted
     for variant in range(2):
